@@ -57,8 +57,42 @@ def inventory(ctx, sym):
                 {x.id for x in walk_local(fn) if isinstance(x, ast.Name) and isinstance(x.ctx, ast.Store)}
             local -= glob
             ci = class_of_function(sym, m, fn)
+
+            def module_level_mutable(name):
+                b = sym.lookup(m.name, name)
+                if b is None or b.kind not in ('assign', 'importfrom', 'other'):
+                    return None
+                r = sym.resolve_name(m, name)
+                if isinstance(r, tuple) and r[0] == 'value' and r[2] is not None and is_mutable_expr(r[2]):
+                    return r
+                return None
+            # a local name bound to a module-level object is that object (`ignored = _TABLE; ignored += extra`)
+            aliases = {}
+            for n in walk_local(fn):
+                if isinstance(n, ast.Assign) and isinstance(n.value, ast.Name) and n.value.id not in local and \
+                        len(n.targets) == 1 and isinstance(n.targets[0], ast.Name):
+                    r = module_level_mutable(n.value.id)
+                    if r is not None:
+                        aliases[n.targets[0].id] = (n.value.id, r)
+            for n in walk_local(fn):
+                # a shallow copy of a module-level template whose entries are themselves mutable shares those entries
+                # between everything built from the template
+                if isinstance(n, ast.Call) and ((isinstance(n.func, ast.Name) and n.func.id in ('dict', 'list', 'set')
+                                                 and len(n.args) == 1 and not n.keywords)
+                                                or dotted(n.func) == 'copy.copy' and len(n.args) == 1
+                                                or (isinstance(n.func, ast.Attribute) and n.func.attr == 'copy'
+                                                    and not n.args)):
+                    src = n.args[0] if n.args else n.func.value
+                    if isinstance(src, ast.Name) and src.id not in local:
+                        r = module_level_mutable(src.id)
+                        if r is not None and _nested_mutable(r[2]):
+                            out.append(('%s:%s' % (r[1].name, src.id), m, fn, n, 'shallow-copy-of-nested-template'))
             for n in walk_local(fn):
                 base, kind = None, None
+                if isinstance(n, ast.AugAssign) and isinstance(n.target, ast.Name) and n.target.id in aliases:
+                    gname, r = aliases[n.target.id]
+                    out.append(('%s:%s' % (r[1].name, gname), m, fn, n, 'augassign-through-alias'))
+                    continue
                 if isinstance(n, ast.Call) and isinstance(n.func, ast.Attribute) and n.func.attr in MUT:
                     base, kind = n.func.value, n.func.attr
                 elif isinstance(n, (ast.Assign, ast.AugAssign, ast.Delete)):
@@ -73,6 +107,10 @@ def inventory(ctx, sym):
                 if base is None:
                     continue
                 if isinstance(base, ast.Name):
+                    if base.id in aliases:
+                        gname, r = aliases[base.id]
+                        out.append(('%s:%s' % (r[1].name, gname), m, fn, n, kind + '-through-alias'))
+                        continue
                     if base.id in local:
                         continue
                     b = sym.lookup(m.name, base.id)
@@ -100,6 +138,16 @@ def inventory(ctx, sym):
                         own = f[0] if f else target_cls
                         out.append(('%s:%s.%s' % (own.module.name, own.name, base.attr), m, fn, n, kind))
     return out
+
+
+def _nested_mutable(expr):
+    """A dict/list/set display one of whose entries is itself a mutable display (or constructor call)."""
+    vals = []
+    if isinstance(expr, ast.Dict):
+        vals = list(expr.values)
+    elif isinstance(expr, (ast.List, ast.Set)):
+        vals = list(expr.elts)
+    return any(is_mutable_expr(v) for v in vals if v is not None)
 
 
 def _name_of_binding(r, fallback):
